@@ -10,6 +10,8 @@ Scheduling points (nothing in /repo is touched)
         ``pass_row=True`` (impure, hence never constant-folded); it yields to the scheduler and returns x.
         It stands between sub-expressions of the targets (targets are evaluated left to right), inside
         aggregates, in WHERE clauses (one point per scanned row) and in sub-queries;
+  (i')  the PURE BQL function ``vc(x)``: constant-folded, hence evaluated BY THE COMPILER; a point during compilation
+        (before placeholders are bound and columns resolved: targets compile left to right, FROM first, WHERE last);
   (ii)  a harness table whose iterator yields to the scheduler before every row;
   (iii) thorough tier: a point before every source line executed in <repo>/beanquery/*.py
         (sys.settrace installed in each harness thread).
@@ -18,6 +20,7 @@ Outside an exploration ``point()`` is a no-op: the same statements run serially 
 Menu       bal2 (``balance`` twice per row, vy between), agg (two aggregates, GROUP BY), insub (IN
            sub-query with a named placeholder inside), fromsub (FROM sub-query), named / pos1 / pos2
            (placeholders), ent (the #entries table), oc (FROM OPEN ON .. CLOSE ON ..), ht (harness table).
+           tagg / tagg2 / tplain are passed AS TEXT (same text in both threads), as pairs only.
            The parsed AST of a statement is SHARED by all threads that execute it; each thread passes its own parameters.
 Configs    shared: one Connection for all threads; separate: one Connection per thread over the same
            entries; different: one Connection per thread over different ledgers.
@@ -78,6 +81,14 @@ def _register_vy():
         sched.point(('vy', x))
         return x
     query_compile.FUNCTIONS['vy'][-1]._c20 = True
+
+    # PURE function: with constant arguments it is constant-folded, i.e. evaluated by the compiler.  Its body is a
+    # scheduling point DURING COMPILATION (FROM is compiled first, then the targets left to right, then WHERE).
+    @query_env.function([int], int, name='vc')
+    def vc(x):
+        sched.point(('vc', x))
+        return x
+    query_compile.FUNCTIONS['vc'][-1]._c20 = True
 
 
 _register_vy()
@@ -151,17 +162,29 @@ MENU = {
     'insub': ("SELECT narration, vy(1) AS y WHERE account ~ 'Assets' AND account IN "
               "(SELECT account WHERE currency = %(cur)s AND account ~ 'Assets' AND vy(2) = 2)",
               [{'cur': 'EUR'}, {'cur': 'USD'}, {'cur': 'EUR'}], ()),
-    'fromsub': ("SELECT a, vy(1) AS y, n FROM (SELECT account AS a, number AS n WHERE account ~ 'Assets:A' AND vy(2) = 2)", None, ()),
-    'named': ("SELECT account, number, vy(1) AS y WHERE number > %(lo)s AND currency = %(cur)s",
+    'fromsub': ("SELECT vc(1) AS c, a, vy(1) AS y, n FROM (SELECT account AS a, number AS n WHERE account ~ 'Assets:A' AND vy(2) = 2)", None, ()),
+    'named': ("SELECT vc(1) AS c, account, number, vy(1) AS y WHERE number > %(lo)s AND currency = %(cur)s",
               [{'lo': 0, 'cur': 'USD'}, {'lo': 1, 'cur': 'EUR'}, {'lo': 1, 'cur': 'USD'}], ()),
     'pos1': ("SELECT account, vy(1) AS y, number * %s AS m WHERE account ~ 'Assets'", [(2,), (3,), (5,)], ()),
-    'pos2': ("SELECT account, vy(1) AS y, number * %s AS m WHERE number > %s", [(2, 0), (3, 1), (5, 0)], ()),
-    'ent': ("SELECT vy(1) AS y, date, narration FROM #entries WHERE type = 'transaction'", None, ()),
+    'pos2': ("SELECT account, vy(1) AS y, vc(1) AS c, number * %s AS m WHERE number > %s", [(2, 0), (3, 1), (5, 0)], ()),
+    'ent': ("SELECT vc(1) AS c, vy(1) AS y, date, narration FROM #entries WHERE type = 'transaction'", None, ()),
     'oc': ("SELECT account, sum(position) AS s FROM OPEN ON 2020-01-03 CLOSE ON 2020-01-05 "
            "WHERE account ~ 'Assets' AND vy(1) = 1 GROUP BY account", None, ()),
-    'ht': ("SELECT x, vy(1) AS y, s FROM #ht WHERE x > 0", None, ()),
+    'ht': ("SELECT vc(1) AS c, x, vy(1) AS y, s FROM #ht WHERE x > 0", None, ()),
 }
 IDS = list(MENU)
+# Statements passed to execute() AS TEXT (parsed inside the thread; parsing has no scheduling point and costs 20-90 ms,
+# hence few of them and only as pairs): the same / an equal text in both threads reaches anything keyed by statement
+# text.  vy(1) stands in an aggregate target evaluated while the groups are finalised: count(*) of the row is read
+# before the point, sum(number) after it.
+TEXT_MENU = {
+    'tagg': ("SELECT account, count(*) AS n, vy(1) * sum(number) AS s, last(narration) AS l WHERE account ~ 'Assets' "
+             "GROUP BY account", None, ()),
+    'tagg2': ("SELECT currency, count(*) AS n, vy(1) * sum(number) AS s WHERE account ~ 'Income' GROUP BY currency", None, ()),
+    'tplain': ("SELECT account, vy(1) AS y, number WHERE account ~ 'Assets:A'", None, ()),
+}
+MENU.update(TEXT_MENU)
+TEXT_PAIRS = [('tagg', 'tagg'), ('tagg', 'tagg2'), ('tagg', 'tplain'), ('tplain', 'tplain'), ('tagg', 'agg'), ('tplain', 'named')]
 CANARY = ('canary', 'canary')
 MENU['canary'] = ("SELECT c FROM #canary", None, ())      # not part of IDS: explored separately, see run()
 CONFIGS = ['shared', 'separate', 'different']
@@ -307,7 +330,10 @@ class Item:
         asts = {}
         for sid in self.ids:
             if sid not in asts:
-                asts[sid] = copy_ast(e['pristine'][sid]) if e['has_ph'][sid] else e['ast'][sid]
+                if sid in TEXT_MENU:
+                    asts[sid] = MENU[sid][0]            # the text itself: execute() parses it
+                else:
+                    asts[sid] = copy_ast(e['pristine'][sid]) if e['has_ph'][sid] else e['ast'][sid]
         return [self._body(conns[i], asts[sid], params_for(sid, i, e)) for i, sid in enumerate(self.ids)]
 
     @staticmethod
@@ -485,26 +511,20 @@ def count_points(mode, sid, seed):
 
 
 def quick_triples(triples):
-    """Deterministic subset for the quick tier: every (a,a,a), every (a,a,next(a)), a greedy cover so that every
-    pair of different statements meets in at least one triple of three different statements, every 20th of the rest."""
+    """Deterministic subset for the quick tier: every (a,a,a) and a greedy cover so that every pair of different
+    statements meets in at least one triple of three different statements."""
     chosen = []
     covered = set()
-    nxt = {a: IDS[(i + 1) % len(IDS)] for i, a in enumerate(IDS)}
-    for j, t in enumerate(triples):
+    for t in triples:
         kinds = len(set(t))
-        take = kinds == 1 or j % 20 == 0
-        if kinds == 2:
-            a = max(t, key=t.count)
-            b = [x for x in t if x != a][0]
-            take = take or b == nxt[a]
+        take = kinds == 1
         if kinds == 3:
             pairs3 = {frozenset(p) for p in itertools.combinations(t, 2)}
             if not pairs3 <= covered:
                 take = True
+                covered |= pairs3
         if take:
             chosen.append(t)
-            if kinds == 3:
-                covered |= {frozenset(p) for p in itertools.combinations(t, 2)}
     return chosen
 
 
@@ -525,6 +545,11 @@ def plan(ctx):
         triples = quick_triples(triples)
     for config in CONFIGS:
         for ids in pairs:
+            add('yield', config, ids, None, sched.interleavings(*[pts[s] + 1 for s in ids]), 600)
+    tpts = {sid: count_points('yield', sid, seed) for sid in TEXT_MENU}
+    pts.update(tpts)
+    for config in ('shared', 'separate'):
+        for ids in TEXT_PAIRS:
             add('yield', config, ids, None, sched.interleavings(*[pts[s] + 1 for s in ids]), 600)
     for config in CONFIGS:
         for ids in triples:
